@@ -81,6 +81,25 @@ theorem goRange_fold {α ρ σ : Type} (l : List α) (s0 : σ) (body : σ → α
   | nil => rfl
   | cons x xs ih => rw [goRange_cons, h s0 x]; exact ih _
 
+/-- a loop all of whose early returns, and whose normal end, satisfy `P` -/
+theorem goRange_all {α ρ σ : Type} (P : ρ → Prop) (l : List α) (body : σ → α → LoopStep ρ σ) (after : σ → ρ)
+    (hbody : ∀ s x r, body s x = .ret r → P r) (hafter : ∀ s, P (after s)) (s0 : σ) :
+    P (goRange l s0 body after) := by
+  induction l generalizing s0 with
+  | nil => exact hafter s0
+  | cons x xs ih =>
+    rw [goRange_cons]
+    cases hb : body s0 x with
+    | ret r => exact hbody s0 x r hb
+    | next s => exact ih s
+    | brk s => exact hafter s
+
+theorem ite_all {α : Type} (P : α → Prop) {c : Prop} [Decidable c] {a b : α} (ha : c → P a) (hb : ¬c → P b) :
+    P (if c then a else b) := by
+  by_cases h : c
+  · rw [if_pos h]; exact ha h
+  · rw [if_neg h]; exact hb h
+
 /-- no operation on the file system fails -/
 def NoIOErr (ext : Ext) : Prop := ∀ h op, ext.ioErr h op = none
 
